@@ -700,7 +700,11 @@ def t_sign(args, kw, node):
 def t_where(args, kw, node):
     if len(args) == 1:
         return Tup([Deg({()}, 1), Deg({()}, 1), Deg({()}, 1)])
-    r = join(num(args[1]), num(args[2]))
+    # optimistic step (DESIGN 5): a numeric literal branch of np.where is a filler (like NaN), used only where the condition fails
+    br = [ANY if (isinstance(a, Cst) and isinstance(a.v, (int, float)) and not isinstance(a.v, bool)) else num(a) for a in args[1:3]]
+    if all(isinstance(b, Any_) for b in br):
+        br = [num(args[1]), num(args[2])]
+    r = join(br[0], br[1])
     rk = None
     for x in args:
         rr = getattr(num(x), "rank", None)
